@@ -81,6 +81,13 @@ func WorkerMain(chk *Check, thorough bool, scratch string, wid int, deadline tim
 		os.Exit(2)
 	}
 	enc := json.NewEncoder(out)
+	// work items arrive on the original standard input; keep a private copy so that Setup may replace fd 0 (C17 attaches a pty)
+	inFd, err := syscall.Dup(0)
+	if err != nil {
+		fmt.Fprintln(os.Stderr, "worker: dup stdin:", err)
+		os.Exit(2)
+	}
+	inFile := os.NewFile(uintptr(inFd), "items")
 	if chk.Setup != nil {
 		if err := chk.Setup(thorough, scratch); err != nil {
 			fmt.Fprintln(os.Stderr, "worker setup:", err)
@@ -115,7 +122,7 @@ func WorkerMain(chk *Check, thorough bool, scratch string, wid int, deadline tim
 			}
 		}
 	}()
-	in := bufio.NewReader(os.Stdin)
+	in := bufio.NewReader(inFile)
 	for {
 		line, err := in.ReadBytes('\n')
 		if len(line) > 0 {
